@@ -335,7 +335,9 @@ def run_property(prop, tier='quick', seed=0, jobs=None, only=None):
                  verifier_output=f"z3: sat on path-condition /\\ not({name}); model over contract inputs attached",
                  tree=_tree_id())
       outcome = dict(outcome='no-model', detail='')
-      if model:
+      if model and len(replay_files) >= 6:
+        outcome = dict(outcome='replay-not-attempted', detail='more than 6 violations in this run; replay the file with ./check --replay')
+      elif model:
         cls_task = next((t for t in tasks if _label(t) == r['contract']), None)
         if cls_task is not None:
           outcome = _replay_subprocess(cls_task, name, model)
